@@ -264,7 +264,7 @@ pub fn decode(data: &[u8]) -> Option<Case> {
                 }
             }
         });
-        if ops.len() >= 200 {
+        if ops.len() >= 64 {
             break;
         }
     }
